@@ -1612,3 +1612,46 @@ def kwargs_keys_are_dests(ctx, rid, modname, entry="main"):
         R.check(rid, k in dests, f"{modname}:{entry} reads {k!r}", mod=m, node=node, function=ctx.fq(fi),
                 expected=f"one of the registered destinations {sorted(dests)}"[:300],
                 found=f"{k!r} is not the destination of any option: the value the user gave never arrives (default / KeyError instead)", key_extra=k + str(node.lineno))
+
+
+def loops_run_to_end(ctx, rid, fi, markers, what, floor=1):
+    """Every loop of `fi` whose body does the per-item work (a call of one of `markers`) runs to its end: a `break` that belongs to the
+    loop, or a `return` anywhere inside it, leaves the remaining items unprocessed (raising is a refusal, not a skip).  The property
+    behind `rid` says *every* item (slot, input file, envelope, dependency) is processed; a `continue` skips one item for a stated
+    reason, a `break` in its place silently drops all later ones.  Search loops (no marker call in the body) are not concerned."""
+    R = ctx.report
+    R.rule(rid, floor, f"the loop over {what} has no break / return that ends it before the last item")
+
+    def own_exits(loop):
+        out, todo = [], list(loop.body) + list(loop.orelse)
+        while todo:
+            x = todo.pop()
+            if isinstance(x, (ast.FunctionDef, ast.AsyncFunctionDef, ast.Lambda, ast.ClassDef)):
+                continue
+            if isinstance(x, (ast.For, ast.AsyncFor, ast.While)):
+                todo.extend(y for y in ast.walk(x) if isinstance(y, ast.Return))
+                continue
+            if isinstance(x, (ast.Break, ast.Return)):
+                out.append(x)
+            todo.extend(ast.iter_child_nodes(x))
+        return out
+
+    def has_marker(loop):
+        for c in ast.walk(loop):
+            if isinstance(c, ast.Call):
+                nm = c.func.attr if isinstance(c.func, ast.Attribute) else c.func.id if isinstance(c.func, ast.Name) else None
+                if nm in markers:
+                    return True
+        return False
+    n = 0
+    for loop in [x for x in ast.walk(fi.node) if isinstance(x, (ast.For, ast.AsyncFor, ast.While))]:
+        if not has_marker(loop):
+            continue
+        # the innermost loops that hold the marker and the loops around them are all "work loops"
+        n += 1
+        early = own_exits(loop)
+        R.check(rid, not early, f"{ctx.fq(fi)}: loop at line {loop.lineno}", mod=fi.module, node=early[0] if early else loop, function=ctx.fq(fi),
+                expected=f"every one of the {what} is processed: no break / return inside the loop",
+                found=f"{type(early[0]).__name__.lower()} at line {early[0].lineno} ends the loop: the remaining {what} are silently dropped" if early else "",
+                key_extra=fi.qualname + "loopend")
+    return n
